@@ -47,11 +47,23 @@ Inductive tree :=
 | TAssert (l : tree) (t : option ty)      (* TypeAssertion *)
 | TCall (name : str) (args : list tree).  (* FuncCall *)
 
+(* The type-checking sites of expression.go / parser.go.  Typing is NOT modelled: whether a
+   site reports a type error is decided by an arbitrary oracle (env.e_tyerr); the model mirrors
+   what the parser does next in either case (append an error, return nil, which tokens it has
+   consumed by then). *)
+Inductive tsite :=
+| TS_unary | TS_binary | TS_not_indexable | TS_index_type | TS_not_sliceable | TS_slice_bounds
+| TS_dot_not_map | TS_assert_not_any | TS_array_elem_none | TS_map_value_none | TS_call_args
+| TS_assign_string_index | TS_assign_type | TS_decl_none | TS_return_type | TS_for_multi
+| TS_for_range_type | TS_condition | TS_event_param.
+
 (* one constructor per appendError site *)
 Inductive perr :=
 | E_unexpected | E_ws_after_unary | E_ws_before_bracket | E_ws_before_dot | E_ws_after_dot
 | E_expected (t : toktype) | E_map_key | E_dup_key | E_bad_num | E_anon_var | E_unknown_var
-| E_func_needs_parens | E_bad_type | E_assert_any.
+| E_func_needs_parens | E_bad_type | E_assert_any
+| E_type (s : tsite)     (* a typing error (typing itself is not modelled, see e_tyerr) *)
+| E_stmt (code : nat).   (* the appendError sites of parser.go, numbered in Parser.v *)
 
 (* ---------- parser state ---------- *)
 Record pstate := {
@@ -59,11 +71,15 @@ Record pstate := {
   rest : list token;   (* tokens[pos:] *)
   peek : token;        (* p.peek *)
   wss  : list bool;    (* p.wssStack, top first *)
-  errs : list perr     (* p.errors, newest first *)
+  errs : list (perr * nat);  (* p.errors, newest first; the nat locates the blamed token: the number
+                                of tokens from it to the end of the input (0 = EOF) *)
+  used : list str      (* names on which lookupVar set isUsed since the caller last collected them *)
 }.
 
 (* the environment the parser consults: p.funcs (name, isNiladic) and the variables in scope *)
 Record env := { e_funcs : list (str * bool); e_vars : list str;
+                 (* the typing oracle: site, the tree being checked, the token the error would blame (tokens left) *)
+                 e_tyerr : tsite -> tree -> nat -> bool;
                  (* false = the code as it is; true = parseSlice with the proposed fix
                     (proposed_fixes/C01-slice-rbracket-ws.diff): "]" consumed with advanceWSS *)
                  e_fix_slice : bool }.
@@ -81,7 +97,7 @@ Definition is_wss (st : pstate) : bool := hd false (wss st).
 
 (* advanceWSS: pos++; cur = lookAt(pos); peek = lookAt(pos+1) *)
 Definition advance_wss (st : pstate) : pstate :=
-  {| prev := cur st; rest := tl (rest st); peek := look1 (tl (rest st)); wss := wss st; errs := errs st |}.
+  {| prev := cur st; rest := tl (rest st); peek := look1 (tl (rest st)); wss := wss st; errs := errs st; used := used st |}.
 
 (* advanceIfWS *)
 Definition advance_if_ws (st : pstate) : pstate :=
@@ -93,21 +109,30 @@ Definition advance (st : pstate) : pstate :=
   if is_wss st1 then st1
   else let st2 := advance_if_ws st1 in
        if is_ws (peek st2)
-       then {| prev := prev st2; rest := rest st2; peek := look2 (rest st2); wss := wss st2; errs := errs st2 |}
+       then {| prev := prev st2; rest := rest st2; peek := look2 (rest st2); wss := wss st2; errs := errs st2; used := used st2 |}
        else st2.
 
 (* pushWSS *)
 Definition push_wss (b : bool) (st : pstate) : pstate :=
-  {| prev := prev st; rest := rest st; peek := peek st; wss := b :: wss st; errs := errs st |}.
+  {| prev := prev st; rest := rest st; peek := peek st; wss := b :: wss st; errs := errs st; used := used st |}.
 
 (* popWSS *)
 Definition pop_wss (st : pstate) : pstate :=
-  let st1 := {| prev := prev st; rest := rest st; peek := peek st; wss := tl (wss st); errs := errs st |} in
+  let st1 := {| prev := prev st; rest := rest st; peek := peek st; wss := tl (wss st); errs := errs st; used := used st |} in
   if negb (is_wss st1) && is_ws (cur st1) then advance st1 else st1.
 
-(* appendError / appendErrorForToken (positions are not modelled here) *)
-Definition add_err (e : perr) (st : pstate) : pstate :=
-  {| prev := prev st; rest := rest st; peek := peek st; wss := wss st; errs := e :: errs st |}.
+(* position of the current token, as the number of tokens left *)
+Definition here (st : pstate) : nat := List.length (rest st).
+
+(* appendErrorForToken(msg, tok) with tok located by [n] *)
+Definition add_err_at (e : perr) (n : nat) (st : pstate) : pstate :=
+  {| prev := prev st; rest := rest st; peek := peek st; wss := wss st; errs := (e, n) :: errs st; used := used st |}.
+
+(* appendError(msg) = appendErrorForToken(msg, p.cur) *)
+Definition add_err (e : perr) (st : pstate) : pstate := add_err_at e (here st) st.
+
+Definition mark_used (n : str) (st : pstate) : pstate :=
+  {| prev := prev st; rest := rest st; peek := peek st; wss := wss st; errs := errs st; used := n :: used st |}.
 
 (* assertToken *)
 Definition assert_token (t : toktype) (st : pstate) : bool * pstate :=
@@ -208,6 +233,10 @@ Fixpoint parse_type (fuel : nat) (st : pstate) : res (option ty) :=
 Section Open.
 Variable pe : nat -> pstate -> res (option tree).
 
+(* does the type checker object at site s to tree t; [blame] locates the token the error would
+   be reported for (decided by the oracle) *)
+Definition tyerr (s : tsite) (t : tree) (blame : nat) : bool := e_tyerr E s t blame.
+
 (* parseExprWSS *)
 Definition parse_expr_wss (st : pstate) : res (option tree) :=
   do (r, st1) <- pe lowestPrec (push_wss true st);
@@ -230,13 +259,15 @@ Fixpoint parse_expr_list (fuel : nat) (acc : list tree) (st : pstate) : res (opt
     end
   end.
 
-(* parseFuncCall; only called for names in p.funcs *)
+(* parseFuncCall; only called for names in p.funcs.  assertArgTypes (arity and argument
+   types) only appends errors: one oracle site *)
 Definition parse_func_call (fuel : nat) (is_top : bool) (niladic : bool) (st : pstate) : res (option tree) :=
   let name := tlit (cur st) in
   let st1 := advance st in
   if is_top || negb niladic then
     do (args, st2) <- parse_expr_list fuel [] st1;
-    ret (Some (TCall name (match args with Some l => l | None => [] end))) st2
+    let c := TCall name (match args with Some l => l | None => [] end) in
+    ret (Some c) (if tyerr TS_call_args c (here st2) then add_err (E_type TS_call_args) st2 else st2)
   else ret (Some (TCall name [])) st1.
 
 (* parseTopLevelExpr *)
@@ -246,15 +277,16 @@ Definition parse_toplevel (fuel : nat) (st : pstate) : res (option tree) :=
   | _, _ => pe lowestPrec st
   end.
 
-(* lookupVar *)
+(* lookupVar; errors are reported for the identifier token *)
 Definition lookup_var (st : pstate) : res (option tree) :=
   let name := tlit (cur st) in
+  let tok := here st in
   let st1 := advance st in
-  if str_eqb name (s_ "_") then ret None (add_err E_anon_var st1)
-  else if mem_str name (e_vars E) then ret (Some (TVar name)) st1
+  if str_eqb name (s_ "_") then ret None (add_err_at E_anon_var tok st1)
+  else if mem_str name (e_vars E) then ret (Some (TVar name)) (mark_used name st1)
   else match func_of name with
-       | Some _ => ret None (add_err E_func_needs_parens st1)
-       | None => ret None (add_err E_unknown_var st1)
+       | Some _ => ret None (add_err_at E_func_needs_parens tok st1)
+       | None => ret None (add_err_at E_unknown_var tok st1)
        end.
 
 (* parseIdentExpr *)
@@ -272,10 +304,12 @@ Fixpoint parse_array_elems (fuel : nat) (acc : list tree) (st : pstate) : res (o
     match cur_t st with
     | T_RBRACKET | T_EOF => ret (Some (rev acc)) st
     | _ =>
+      let el_tok := here st in
       do (n, st1) <- parse_expr_wss st;
       match n with
       | None => ret None st1
       | Some t =>
+        if tyerr TS_array_elem_none t el_tok then ret None (add_err_at (E_type TS_array_elem_none) el_tok st1) else
         match parse_multiline_ws fuel st1 with
         | None => None
         | Some st2 => parse_array_elems f (t :: acc) st2
@@ -317,10 +351,12 @@ Fixpoint parse_map_pairs (fuel : nat) (acc : list (str * tree)) (st : pstate) : 
       if has_key key acc then ret None (add_err E_dup_key st1) else
       let st2 := snd (assert_token T_COLON st1) in
       let st3 := advance st2 in
+      let val_tok := here st3 in
       do (n, st4) <- parse_expr_wss st3;
       match n with
       | None => ret None st4
       | Some t =>
+        if tyerr TS_map_value_none t val_tok then ret None (add_err_at (E_type TS_map_value_none) val_tok st4) else
         match parse_multiline_ws fuel st4 with
         | None => None
         | Some st5 => parse_map_pairs f ((key, t) :: acc) st5
@@ -352,7 +388,7 @@ Definition parse_literal (fuel : nat) (st : pstate) : res (option tree) :=
   | T_NUM_LIT =>
       let st1 := advance st in
       if num_lit_ok (tlit tok) then ret (Some (TNum (tlit tok))) st1
-      else ret None (add_err E_bad_num st1)
+      else ret None (add_err E_bad_num st1)     (* p.appendError after p.advance(): the NEXT token is blamed *)
   | T_TRUE => ret (Some (TBool true)) (advance st)
   | T_FALSE => ret (Some (TBool false)) (advance st)
   | T_LBRACKET => parse_array_literal fuel st
@@ -360,26 +396,32 @@ Definition parse_literal (fuel : nat) (st : pstate) : res (option tree) :=
   | _ => ret None st
   end.
 
-(* parseUnaryExpr *)
+(* parseUnaryExpr; both errors are reported for the operator token *)
 Definition parse_unary (st : pstate) : res (option tree) :=
   let op := cur_t st in
+  let tok := here st in
   let st1 := advance st in
-  let st2 := if is_ws (prev st1) then add_err E_ws_after_unary st1 else st1 in
+  let st2 := if is_ws (prev st1) then add_err_at E_ws_after_unary tok st1 else st1 in
   do (r, st3) <- pe unary_operand_prec st2;
   match r with
   | None => ret None st3
-  | Some t => ret (Some (TUn op t)) st3
+  | Some t =>
+      if tyerr TS_unary (TUn op t) tok then ret None (add_err_at (E_type TS_unary) tok st3)  (* validateUnaryType *)
+      else ret (Some (TUn op t)) st3
   end.
 
 (* parseBinaryExpr *)
 Definition parse_binary (left : tree) (st : pstate) : res (option tree) :=
   let op := cur_t st in
+  let tok := here st in
   let prec := precedences op in
   let st1 := advance st in
   do (r, st2) <- pe (binary_operand_prec prec) st1;
   match r with
   | None => ret None st2
-  | Some t => ret (Some (TBin op left t)) st2
+  | Some t =>
+      if tyerr TS_binary (TBin op left t) tok then ret None (add_err_at (E_type TS_binary) tok st2)  (* validateBinaryType *)
+      else ret (Some (TBin op left t)) st2
   end.
 
 (* parseGroupedExpr *)
@@ -392,76 +434,93 @@ Definition parse_grouped (fuel : nat) (st : pstate) : res (option tree) :=
   | _, _ => ret None (pop_wss st3)
   end.
 
-(* parseSlice (called with the cursor just after ':').  Go consumes the closing
-   bracket with p.advance() while the enclosing parseIndexOrSliceExpr has pushed
-   "not whitespace sensitive": whitespace after the slice is swallowed even when
-   the slice sits in a call argument / array element (see C01_prec_slice_refuted). *)
+(* parseSlice (called with the cursor just after ':'); [tok] locates the "[" token.
+   e_fix_slice = false is parseSlice before commit 16971a1 (p.advance() for "]"). *)
 Definition slice_close (st : pstate) : pstate :=
   if e_fix_slice E then advance_wss st else advance st.
 
-Definition parse_slice (fuel : nat) (left : tree) (start : option tree) (st : pstate) : res (option tree) :=
+Definition parse_slice (fuel : nat) (tok : nat) (left : tree) (start : option tree) (st : pstate) : res (option tree) :=
+  if tyerr TS_not_sliceable left tok then ret None (add_err_at (E_type TS_not_sliceable) tok st) else
   match cur_t st with
-  | T_RBRACKET => ret (Some (TSlice left start None)) (slice_close st)
+  | T_RBRACKET =>
+      let st1 := slice_close st in
+      let t := TSlice left start None in
+      if tyerr TS_slice_bounds t tok then ret None (add_err_at (E_type TS_slice_bounds) tok st1) else ret (Some t) st1
   | _ =>
     do (e, st1) <- parse_toplevel fuel st;
     match e with
     | None => ret None st1
-    | Some t =>
+    | Some x =>
       let '(ok, st2) := assert_token T_RBRACKET st1 in
-      if ok then ret (Some (TSlice left start (Some t))) (slice_close st2) else ret None st2
+      if ok then
+        let st3 := slice_close st2 in
+        let t := TSlice left start (Some x) in
+        if tyerr TS_slice_bounds t tok then ret None (add_err_at (E_type TS_slice_bounds) tok st3) else ret (Some t) st3
+      else ret None st2
     end
   end.
 
-(* parseIndexOrSliceExpr (allowSlice = true, the only use inside parseExpr) *)
-Definition parse_index_or_slice (fuel : nat) (left : tree) (st : pstate) : res (option tree) :=
+(* parseIndexOrSliceExpr *)
+Definition parse_index_or_slice (fuel : nat) (allow_slice : bool) (left : tree) (st : pstate) : res (option tree) :=
   let st0 := push_wss false st in
+  let tok := here st in
   let fin (r : res (option tree)) : res (option tree) := do (x, s) <- r; ret x (pop_wss s) in
   if is_ws (prev st0) then ret None (pop_wss (add_err E_ws_before_bracket st0)) else
   let st1 := advance st0 in
-  match cur_t st1 with
-  | T_COLON => fin (parse_slice fuel left None (advance st1))
-  | _ =>
+  if tyerr TS_not_indexable left tok then ret None (pop_wss (add_err_at (E_type TS_not_indexable) tok st1)) else
+  let is_colon (s : pstate) : bool := allow_slice && match cur_t s with T_COLON => true | _ => false end in
+  if is_colon st1 then fin (parse_slice fuel tok left None (advance st1)) else
     do (ix, st2) <- parse_toplevel fuel st1;
     match ix with
     | None => ret None (pop_wss st2)
     | Some i =>
-      match cur_t st2 with
-      | T_COLON => fin (parse_slice fuel left (Some i) (advance st2))
-      | _ =>
+      if is_colon st2 then fin (parse_slice fuel tok left (Some i) (advance st2)) else
+        (* validateIndex *)
         let '(ok, st3) := assert_token T_RBRACKET st2 in
-        if ok then ret (Some (TIndex left i)) (pop_wss (advance_wss st3)) else ret None (pop_wss st3)
-      end
-    end
-  end.
+        if ok then
+          if tyerr TS_index_type (TIndex left i) tok then ret None (pop_wss (add_err_at (E_type TS_index_type) tok st3))
+          else ret (Some (TIndex left i)) (pop_wss (advance_wss st3))
+        else ret None (pop_wss st3)
+    end.
 
 (* parseDotExpr *)
 Definition parse_dot (left : tree) (st : pstate) : res (option tree) :=
+  let tok := here st in
   if is_ws (prev st) then ret None (add_err E_ws_before_dot st) else
   if is_ws (look1 (rest st)) then ret None (add_err E_ws_after_dot st) else
   let st1 := advance st in
+  if tyerr TS_dot_not_map left tok then ret None (add_err_at (E_type TS_dot_not_map) tok st1) else
   let key := as_ident (cur st1) in
   match ttype key with
   | T_IDENT => ret (Some (TDot left (tlit key))) (advance st1)
-  | _ => ret None (add_err E_map_key st1)
+  | _ => ret None (add_err_at E_map_key tok st1)
   end.
 
 (* parseTypeAssertion *)
 Definition parse_type_assertion (fuel : nat) (left : tree) (st : pstate) : res (option tree) :=
+  let tok := here st in
   if is_ws (prev st) then ret None (add_err E_ws_before_dot st) else
   if is_ws (look1 (rest st)) then ret None (add_err E_ws_after_dot st) else
   let st1 := advance (advance (push_wss false st)) in
   do (t, st2) <- parse_type fuel st1;
   let st3 := match t with
-             | None => add_err E_bad_type st2
-             | Some TyAny => add_err E_assert_any st2
+             | None => add_err_at E_bad_type tok st2
+             | Some TyAny => add_err_at E_assert_any tok st2
              | Some _ => st2
              end in
   let '(ok, st4) := assert_token T_RPAREN st3 in
   let st5 := if ok then advance_wss st4 else st4 in
+  let st6 := if tyerr TS_assert_not_any left tok then add_err_at (E_type TS_assert_not_any) tok st5 else st5 in
   match t with
-  | None => ret None (pop_wss st5)            (* if t == nil { return nil } *)
-  | Some _ => ret (Some (TAssert left t)) (pop_wss st5)
+  | None => ret None (pop_wss st6)            (* if t == nil { return nil } *)
+  | Some _ => ret (Some (TAssert left t)) (pop_wss st6)
   end.
+
+(* unexpectedLeftTokenError: which token is blamed *)
+Definition unexpected_left (st : pstate) : pstate :=
+  if is_wss st && is_ws (cur st) && is_binary_op (ttype (prev st))
+  then add_err_at E_unexpected (S (here st)) st   (* "unexpected whitespace after <op>", for the operator token *)
+  else add_err E_unexpected st.
 
 (* parseExpr: the prefix switch *)
 Definition parse_prefix (fuel : nat) (st : pstate) : res (option tree) :=
@@ -470,7 +529,7 @@ Definition parse_prefix (fuel : nat) (st : pstate) : res (option tree) :=
   | T_STRING_LIT | T_NUM_LIT | T_TRUE | T_FALSE | T_LBRACKET | T_LCURLY => parse_literal fuel st
   | T_BANG | T_MINUS => parse_unary st
   | T_LPAREN => parse_grouped fuel st
-  | _ => ret None (add_err E_unexpected st)   (* unexpectedLeftTokenError *)
+  | _ => ret None (unexpected_left st)
   end.
 
 (* parseExpr: one turn of the loop body; [None] in the first component = "default: return left" *)
@@ -478,7 +537,7 @@ Definition parse_infix (fuel : nat) (left : tree) (st : pstate) : option (res (o
   let tt := cur_t st in
   if is_binary_op tt then Some (parse_binary left st)
   else match tt with
-       | T_LBRACKET => Some (parse_index_or_slice fuel left st)
+       | T_LBRACKET => Some (parse_index_or_slice fuel true left st)
        | T_DOT => match ttype (peek st) with
                   | T_LPAREN => Some (parse_type_assertion fuel left st)
                   | _ => Some (parse_dot left st)
@@ -524,7 +583,7 @@ Definition init_state (toks : list token) : pstate :=
   (* advanceTo(0) *)
   {| prev := tEOF; rest := toks;
      peek := if is_ws (look1 toks) then look2 toks else look1 toks;
-     wss := [false]; errs := [] |}.
+     wss := [false]; errs := []; used := [] |}.
 
 Definition parse_stmt_expr (fuel : nat) (k : nat) (toks : list token) : res (option tree) :=
   parse_toplevel (parse_expr fuel) fuel (Nat.iter k advance (init_state toks)).
@@ -597,7 +656,7 @@ Definition pratt_case (x : sx) : sx :=
   | Lst [Int k; fx; Lst fs; Lst vs; Lst ts] =>
     match decode_list decode_func fs, decode_list decode_str vs, decode_tokens ts with
     | Some funcs, Some vars, Some toks =>
-      let E := {| e_funcs := funcs; e_vars := vars; e_fix_slice := sym_is fx "true" |} in
+      let E := {| e_funcs := funcs; e_vars := vars; e_tyerr := fun _ _ _ => false; e_fix_slice := sym_is fx "true" |} in
       let fuel := 2 * List.length toks + 10 in
       match parse_stmt_expr E fuel (Z.to_nat k) toks with
       | None => Lst [Sym (s_ "oof")]
